@@ -586,8 +586,169 @@ def copies_keep_keys_stream(ctx, res):
                 stamp = now
 
 
+def middle_key_file_stream(ctx, res):
+    """a key file named in the MIDDLE of a tree — a config-type list item / a config-type field that names its own key file, holding a
+    section and list items of its own, below a root that names another — is the key file of everything below it: it is created once
+    when missing, used verbatim, rejected when malformed (the root's valid key file does not stand in for it), and what is stored
+    below it opens with its bytes and not with the root's"""
+    import base64
+    import cincoconfig as cc
+    from cincoconfig.encryption import KeyFile, SecureValue
+    tmp = ctx.tmpdir()
+    n = [0]
+
+    def opens(keypath, stored):
+        try:
+            with KeyFile(keypath) as kf:
+                return kf.decrypt(SecureValue(stored["method"], base64.b64decode(stored["ciphertext"])))
+        except Exception as e:  # noqa
+            return "raised %s" % type(e).__name__
+    for method in ("xor", "aes"):
+        for state in ("valid", "missing", "malformed-31"):
+            for shape in ("list-item", "field"):
+                n[0] += 1
+                kroot = os.path.join(tmp, "mid-root-%d.key" % n[0])
+                kmid = os.path.join(tmp, "mid-vault-%d.key" % n[0])
+                open(kroot, "wb").write(bytes(range(32)))
+                midkey = bytes(range(100, 132))
+                if state == "valid":
+                    open(kmid, "wb").write(midkey)
+                elif state == "malformed-31":
+                    open(kmid, "wb").write(b"z" * 31)
+                extra = cc.Schema()
+                extra.pin = cc.SecureField(method=method)
+                vault = cc.Schema()
+                vault.name = cc.SecureField(method=method)
+                vault.backup.phrase = cc.SecureField(method=method)
+                vault.creds = cc.ListField(extra, default=lambda: [])
+                V = cc.make_type(vault, "MidVault%d" % n[0], key_filename=kmid)
+                s = cc.Schema()
+                s.top = cc.SecureField(method=method)
+                if shape == "list-item":
+                    s.vaults = cc.ListField(V, default=lambda: [])
+                else:
+                    s.vault = V
+                cfg = s(key_filename=kroot)
+                cfg.top = "top-secret"
+                v = V(name="vault-name")
+                v.backup.phrase = "backup-phrase"
+                v.creds = [{"pin": "1234"}]
+                if shape == "list-item":
+                    cfg.vaults = [v]
+                else:
+                    cfg.vault = v
+                case = {"stream": "middle-key-file", "method": method, "middle_key_file": state, "shape": shape}
+                res.case(stable(case), kind="middle-key-file:" + state)
+                try:
+                    tree = cfg.to_tree()
+                    raised = None
+                except Exception as e:  # noqa
+                    tree, raised = None, type(e).__name__
+                if state == "malformed-31":
+                    if raised is None:
+                        res.violate("C08:middle:malformed-used", "a save succeeded although the key file named in the middle of the tree is malformed (the root's key file stood in for it)", case)
+                    continue
+                if raised is not None:
+                    res.violate("C08:middle:save-failed", "a save failed although every key file is valid or absent: %s" % raised, case)
+                    continue
+                now = open(kmid, "rb").read() if os.path.exists(kmid) else None
+                if now is None or len(now) != 32 or (state == "valid" and now != midkey):
+                    res.violate("C08:middle:not-created-or-modified", "the key file named in the middle of the tree was not created (once, 32 bytes) / was modified", case)
+                    continue
+                vt = tree["vaults"][0] if shape == "list-item" else tree["vault"]
+                below = [("name", vt["name"], b"vault-name"), ("backup.phrase", vt["backup"]["phrase"], b"backup-phrase"), ("creds[0].pin", vt["creds"][0]["pin"], b"1234")]
+                wrong = [label for label, st, plain in below if opens(kmid, st) != plain]
+                if wrong or opens(kroot, tree["top"]) != b"top-secret":
+                    res.violate("C08:middle:other-key-used", "a secret below a configuration that names its own key file was not stored under that key file (the root's was used)",
+                                dict(case, fields=wrong))
+                    continue
+                fresh = s(key_filename=kroot)
+                try:
+                    fresh.loads(cfg.dumps(format="json"), format="json")
+                    fv = fresh.vaults[0] if shape == "list-item" else fresh.vault
+                    got = [fv.name, fv.backup.phrase, fv.creds[0].pin, fresh.top]
+                except Exception as e:  # noqa
+                    got = "raised %s" % type(e).__name__
+                if got != ["vault-name", "backup-phrase", "1234", "top-secret"]:
+                    res.violate("C08:middle:reload", "a document written under a key file named in the middle of the tree does not load back in a new session", dict(case, got=repr(got)[:100]))
+
+
+def sessions_after_refusal_and_reused_documents_stream(ctx, res):
+    """(a) across sessions and provider objects: one key object whose open was REFUSED (malformed file), then a session on the repaired
+    file, then the file replaced by another valid key, then another session — what each session encrypts decrypts with a NEW key
+    object on the file as it is then, and not under the key of the session before; (b) a stored secret is a value, not a ticket:
+    the same stored map decrypts every time it is handed in (the same tree loaded twice, into one and into two configurations), and
+    the caller's map is left as it was"""
+    import cincoconfig as cc
+    from cincoconfig.encryption import KeyFile
+    tmp = ctx.tmpdir()
+    n = [0]
+    for method in ("xor", "aes", "best"):
+        n[0] += 1
+        path = os.path.join(tmp, "sr%d.key" % n[0])
+        open(path, "wb").write(b"short")
+        kf = KeyFile(path)
+        try:
+            with kf:
+                pass
+        except Exception:  # noqa
+            pass
+        case = {"stream": "sessions-after-refusal", "method": method}
+        res.case(stable(case), kind="sessions-after-refusal")
+        try:
+            open(path, "wb").write(bytes(range(32)))
+            with kf:
+                first = kf.encrypt("first", method=method)
+            with KeyFile(path) as other:
+                ok1 = other.decrypt(first) == b"first"
+            open(path, "wb").write(bytes(range(60, 92)))
+            with kf:
+                second = kf.encrypt("second", method=method)
+            with KeyFile(path) as other:
+                ok2 = other.decrypt(second) == b"second"
+                try:
+                    stale = other.decrypt(first) == b"first"
+                except Exception:  # noqa
+                    stale = False
+        except Exception as e:  # noqa
+            res.violate("C08:sessions:not-inverted", "a value encrypted in a later session of a key object whose first open was refused does not decrypt with a new key object on the "
+                        "same file: %s" % type(e).__name__, dict(case, error=str(e)[:80]))
+            continue
+        if not ok1 or not ok2 or stale:
+            res.violate("C08:sessions:not-inverted", "sessions after a refused open do not follow the key file (a value does not decrypt with a new key object, or a value of the "
+                        "previous key still does)", dict(case, first_ok=ok1, second_ok=ok2, previous_key_still_works=stale))
+    for method in ("xor", "aes"):
+        n[0] += 1
+        kp = os.path.join(tmp, "rd%d.key" % n[0])
+        open(kp, "wb").write(os.urandom(32))
+        s = cc.Schema()
+        s.db.xor = cc.SecureField(method=method)
+        s.db.other = cc.SecureField(method=method)
+        src = s(key_filename=kp)
+        src.db.xor = "stored-one"
+        src.db.other = "stored-two"
+        tree = src.to_tree()
+        snapshot = json.loads(json.dumps(tree))
+        fld = s.db._fields["xor"]
+        case = {"stream": "reused-document", "method": method}
+        res.case(stable(case), kind="reused-document")
+        try:
+            a, b = s(key_filename=kp), s(key_filename=kp)
+            a.load_tree(tree)
+            b.load_tree(tree)
+            a.load_tree(tree)
+            got = [a.db.xor, a.db.other, b.db.xor, fld.to_python(a.db, tree["db"]["xor"]), fld.to_python(a.db, tree["db"]["xor"])]
+        except Exception as e:  # noqa
+            got = "raised %s: %s" % (type(e).__name__, str(e)[:80])
+        if got != ["stored-one", "stored-two", "stored-one", "stored-one", "stored-one"] or tree != snapshot:
+            res.violate("C08:stored-secret-consumed", "the same stored secret does not decrypt every time it is handed in (or the caller's document was changed by the load)",
+                        dict(case, got=repr(got)[:160], document_unchanged=tree == snapshot))
+
+
 def run(ctx):
     res = Result()
+    guard(res, "C08", sessions_after_refusal_and_reused_documents_stream, ctx, res)
+    guard(res, "C08", middle_key_file_stream, ctx, res)
     guard(res, "C08", stream_cipher, ctx, res, ctx.n(4, 40))
     guard(res, "C08", stream_b64, ctx, res, ctx.n(1500, 60000))
     guard(res, "C08", stream_stored, ctx, res, ctx.n(20, 400))
